@@ -609,3 +609,85 @@ def rule_changes_forwarded(repo, chk, rule):
     rst = g.calling("reset_reference_point")
     in_loop = [i for i in rst if any(g.g.nodes[i]["node"] is x or g.g.nodes[i].get("stmt") is x for x in _walk(loop))]
     chk.expect(bool(rst) and not in_loop, rule, "the 'model' reference point is reset after all changes were forwarded", _loc(rel, fn), found="reset inside the loop" if in_loop else ("no reset" if not rst else None))
+
+
+# ------------------------------------------------------------------ adjacency view under an edit history (hosted by C01 as R-C01-2b and by C14 as R-C14-5b)
+def adjacency_history_rules(repo, chk, rule):
+    """T3, bounded to the fixture model (sa/props/c13_fixture.py, variant B) and a fixed edit history.  WaterNetworkModel.get_links_for_node is what the balance
+    rows, the tank / reservoir demand and the isolation search read; whatever it answers must be derived from the links' CURRENT end nodes.  The model is built by
+    the repository's constructors (interpreted), every (node, flag) is queried, then links are re-targeted through the public end-node setters -- a pipe reversed,
+    a pump reversed, a pipe moved to another node, a valve turned into a self-loop and back -- and removed / added, and after every edit every (node, flag) is
+    queried again and compared with the answer computed from the links' own start / end names.  The queries BEFORE the first edit are part of the rule: an answer
+    remembered from then must not survive the edit."""
+    from ..concrete import ProgramError, Unsupported
+    from ..src import loc, ExtractError
+    from .c13 import model_world, build_fixture_model
+    MODEL = "wntr/network/model.py"
+    gfn = repo.func(MODEL, "WaterNetworkModel.get_links_for_node")
+    chk.fn(gfn)
+    world = model_world(repo)
+    I = world.interp
+    call = lambda o, m, *a, **k: I.call(I.getattr_(o, m), list(a), k)
+
+    def reference(wn):
+        ref = {}
+        for lname, link in list(call(wn, "links")):
+            a, b = I.getattr_(link, "start_node_name"), I.getattr_(link, "end_node_name")
+            ref.setdefault((a, "OUTLET"), []).append(lname)
+            ref.setdefault((b, "INLET"), []).append(lname)
+            for n_ in {a, b}:
+                ref.setdefault((n_, "ALL"), []).append(lname)
+        return ref
+
+    def compare(wn, step):
+        ref = reference(wn)
+        bad = []
+        n = 0
+        for nname, _node in list(call(wn, "nodes")):
+            for flag in ("ALL", "INLET", "OUTLET"):
+                got = sorted(call(wn, "get_links_for_node", nname, flag))
+                want = sorted(ref.get((nname, flag), []))
+                n += 1
+                if got != want:
+                    bad.append("%s %s: %s, the links' own ends say %s" % (nname, flag, got, want))
+        chk.expect(not bad, rule, "get_links_for_node agrees with the links' current end nodes for every node and flag, %s" % step, loc(gfn),
+                   "balance rows, tank / reservoir demand and the isolation search read this view; an answer that does not follow an edit of a link's ends puts the link on the wrong side of a balance",
+                   expected="%d (node, flag) answers equal to the reference" % n, found=bad[:4] or None)
+    try:
+        wn = build_fixture_model(repo, world, "B")
+        node = lambda n_: call(wn, "get_node", n_)
+        link = lambda n_: call(wn, "get_link", n_)
+
+        def retarget(lname, start=None, end=None):
+            l = link(lname)
+            if start is not None:
+                I.setattr_(l, "start_node", node(start))
+            if end is not None:
+                I.setattr_(l, "end_node", node(end))
+        compare(wn, "as built")
+        compare(wn, "queried a second time")
+        a, b = I.getattr_(link("P1"), "start_node_name"), I.getattr_(link("P1"), "end_node_name")
+        retarget("P1", start=b, end=a)
+        compare(wn, "after pipe P1 was reversed through the end-node setters")
+        a, b = I.getattr_(link("PU4"), "start_node_name"), I.getattr_(link("PU4"), "end_node_name")
+        retarget("PU4", start=b, end=a)
+        compare(wn, "after pump PU4 was reversed")
+        retarget("P5", end="J3")
+        compare(wn, "after the end of pipe P5 was moved to J3")
+        retarget("V3", end=I.getattr_(link("V3"), "start_node_name"))
+        compare(wn, "after valve V3 became a self-loop")
+        retarget("V3", end="J4")
+        compare(wn, "after valve V3 was opened up again")
+        a, b = I.getattr_(link("P1"), "start_node_name"), I.getattr_(link("P1"), "end_node_name")
+        retarget("P1", start=b, end=a)
+        compare(wn, "after pipe P1 was reversed back")
+        call(wn, "add_pipe", "PX", "J5", "J2", length=10.0, diameter=0.1, roughness=100.0)
+        compare(wn, "after pipe PX was added")
+        call(wn, "remove_link", "PX")
+        call(wn, "add_pipe", "PX", "J3", "J5", length=10.0, diameter=0.1, roughness=100.0)
+        compare(wn, "after pipe PX was removed and added again between other nodes")
+    except ProgramError as e:
+        chk.bad(rule, "the adjacency view follows the edit history of the fixture model", loc(gfn), "the repository's own code (interpreted) raised", found="%s (line %s)" % (e, e.lineno))
+    except Unsupported as e:
+        raise ExtractError("%s: %s" % (rule, e))
+    chk.floor(rule, 9)
